@@ -4,8 +4,8 @@
    fxh/fxr = true is the code WITH fixes/C15-create-from-file-validate.patch / fixes/C15-print-record-bounds.patch,
    false the code as found. *)
 From Coq Require Import ZArith List.
-Require Import Verif.gen.Consts_rb Verif.gen.Consts_bbfile Verif.RbModel Verif.BbFileModel Verif.BbFileProofs
-        Verif.BbFileRefuted.
+Require Import Verif.gen.Consts_rb Verif.gen.Consts_bbfile Verif.RbModel Verif.RbSpec Verif.RbProofs Verif.BbFileModel
+        Verif.BbFileProofs Verif.BbFileRoundTrip Verif.BbFileRefuted.
 Import ListNotations.
 Local Open Scope Z_scope.
 
@@ -41,6 +41,36 @@ Example C15_print_total_example :
     [ERec 6 1700000000 123456789 [102; 110] 10 3 (repeat 65 511)].
 Proof. exact total_example. Qed.
 Print Assumptions C15_print_total_example.
+
+(* ROUND TRIP, repaired code: for EVERY ring state b that represents a queue of entries `map enc rs' (RbProofs.Repr:
+   the invariant of the ring model, preserved by every alloc/commit/read/reclaim in both normal and overwrite mode, so
+   `rs' is exactly the retained entries of the blackbox, whatever was overwritten before), of any page-multiple size,
+   any read/write positions (wrapped or not), any entries with fields in their C ranges (wf_rec): printing the file
+   that qb_log_blackbox_write_to_file writes (bb_dump b: marker block, header words, data) prints exactly those
+   entries, oldest first, each with its priority, seconds, nanoseconds, function, line, tags as logged and the message
+   = the decoder's answer for ITS stored bytes, then ends with -EIO (qb_rb_chunk_read on the drained ring reports
+   -ETIMEDOUT: by design of the loop, harmless) and leaves no shm file.  (That the decoder's answer on the stored bytes
+   is the text printf would have produced is C14's theorem.) *)
+Theorem C15_roundtrip : forall b rs orc heap0 stk errno0,
+  Repr b (map enc rs) -> bytes_ok (data b) -> (4 * rW b) mod RB_PAGE_SIZE = 0 ->
+  Forall wf_rec rs -> dec_ok orc ->
+  let r := print_from_file true true orc heap0 stk errno0 (bb_dump b) in
+  records r = printed_recs rs orc stk /\ out r = Ret (- BBF_EIO) /\ shm_left r = [] /\
+  evs r = EHdr (rW b) (wpt b) (rpt b) (free32 (rW b) (wpt b) (rpt b)) (used32 (rW b) (wpt b) (rpt b)) ::
+          rec_events rs orc stk ++ [ERead (- RB_ETIMEDOUT); EErr 2 RB_ETIMEDOUT].
+Proof. exact roundtrip. Qed.
+Print Assumptions C15_roundtrip.
+
+(* non-vacuity / concrete instance: an overwrite-mode ring of two pages after 100 blackbox entries (the writer model
+   of RbModel.alloc_commit with the blackbox's reservation): it has wrapped (write_pt < read_pt), entries 0..47 were
+   overwritten; dump + print shows exactly entries 48..99 with all fields *)
+Example C15_roundtrip_example :
+  rpt ring100 = 1776 /\ wpt ring100 = 1652 /\
+  (records (print_from_file true true (map orc_k (map Z.of_nat (seq 48 52))) heapA [] 0 (bb_dump ring100)) =
+   map (fun k => ERec (k mod 8) (1700000000 + k) (1000 * k) [102; 110; 65 + k mod 26] (100 + k) k
+                      (repeat (97 + k mod 26) 99)) (map Z.of_nat (seq 48 52))).
+Proof. exact roundtrip_example. Qed.
+Print Assumptions C15_roundtrip_example.
 
 (* the same statement is FALSE of the code as found: four independent witnesses (replayed on the unchanged library) *)
 Theorem C15_print_total_refuted : ~ found_total.
